@@ -17,3 +17,16 @@ func init() {
 func ThoroughExtras(c *Ctx, prop *Property) map[string]any {
 	return map[string]any{}
 }
+
+func init() {
+	Register(&Property{
+		ID: "C17",
+		Explanation: "Decides structural necessary conditions of well-formed bytecode: the three views of the instruction set coincide and the VM " +
+			"decodes exactly the operand widths that Make encodes, every emit site passes the defined number of operands (R-OPTABLE); operands are " +
+			"range-checked before they are narrowed to 16 bits (R-NARROW); every placeholder jump is patched on every success path (R-JUMPPATCH); " +
+			"the compiler rejects node kinds it cannot translate instead of leaving the operand stack inconsistent (R-EXHAUST/Compile).",
+		NotDecided:  "Stack balance in general, symbol-table histories (slot arithmetic), host crashes from value-level arithmetic.",
+		Assumptions: []string{"the VM dispatch is the switch over Opcode with the most cases in (*VM).Run", "ip is the instruction pointer variable of Run"},
+		Rules:       []*Rule{ruleOpTable, ruleNarrow, ruleJumpPatch, exhaustRule("Compile", 20)},
+	})
+}
